@@ -60,6 +60,10 @@ def st_case(draw):
             p["R"] = draw(st.sampled_from([0.0, 1e-300, 1e-200, 1e-100]))
     elif model == "hertz_cone":
         p = {"E": draw(E), "alpha": draw(edge(0.01, 89.9)), "nu": draw(nu)}
+        if draw(st.integers(0, 19)) == 0:
+            # the inclusive bound: tan(90 deg) is singular, so there is no reference value; what remains is that the
+            # force off contact is the baseline and that nothing non-finite comes out (the code's tan(pi/2) is 1.6e16)
+            p["alpha"] = 90.0
     elif model == "hertz_pyr3s":
         p = {"E": draw(E), "alpha": draw(edge(0.01, 30.0)), "nu": draw(nu)}
     else:
@@ -156,6 +160,10 @@ def check_case(case, ctx):
         ok = np.all(got[off] == p["baseline"])
         ctx.check(ok, "off-contact-not-baseline", desc,
                   f"delta-cp={(-d[off]).tolist()} force-baseline={(got[off] - p['baseline']).tolist()}")
+    if model == "hertz_cone" and p["alpha"] == 90.0:
+        ctx.check(bool(np.all(np.isfinite(got))), "non-finite-at-bound", desc,
+                  f"alpha = 90 (inclusive bound): model returned {got.tolist()}")
+        return
     # (a) reference to round-off
     ref = refmodels.force_mp(model, delta, p)
     tol = tolerance(model, p, np.where(incontact, d, 0.0))
